@@ -1,6 +1,7 @@
 (* Run/Exec_C15.v — executable entry point of the C15 correspondence check (BigZ instance of the curve).
    run op args = "<implementation model output>|<specification output>|<known-finding class or ->"
-   op (driver side: harness/src/ops_c15.rs):
+   ops (driver side: harness/src/ops_c15.rs):
+     spend.build <kind> <tx> <idx> <value> <keys> <signers> <seps> <variant>  ->  OK:<signed tx>;<ext>;<locking>;<subscript>
      interp.spend <tx> <idx> <ext>   ->  OK:<stack items>;<codeseparator_offset>  |  ERR
        ext = `_` or entries `<sat|n>.<locking script descriptor|n>` joined by `,`, entry k for input k
    Implementation column: Model/InterpSig.v (from_transaction + run over Model/Interp.v).
@@ -118,6 +119,150 @@ Definition run_spend (txb : bytes) (idx : N) (es : list ext_entry) : string :=
       end
   end.
 
+(* ------------------------------------------------------------------ *)
+(* spend.build: the library assembles and signs a spend (harness/src/ops_c15.rs); the model does the same with
+   Model/InterpSig.tx_sign_element (RFC 6979 ECDSA of Model/Ecdsa.v, DER of Model/Sig.v) and the script builders.
+   Output: OK:<tx hex>;<ext>;<locking script hex>;<subscript hex> *)
+Definition parse_key (s : string) : option privkey :=
+  let '(unc, h) := match s with String "u" r => (true, r) | _ => (false, s) end in
+  match bytes_of_hex h with
+  | Some kb => match privkey_from_bytes kb with Ok k => Some (compress_public_key k (negb unc)) | _ => None end
+  | None => None
+  end.
+Fixpoint parse_all {A} (f : string -> option A) (l : list string) : option (list A) :=
+  match l with
+  | [] => Some []
+  | x :: r => match f x, parse_all f r with Some a, Some ar => Some (a :: ar) | _, _ => None end
+  end.
+Definition parse_signer (nkeys : nat) (s : string) : option (nat * N) :=
+  match split "." s with
+  | [a; b] => match N_of_dec a, N_of_dec b with
+              | Some ki, Some fl =>
+                  if (ki <? N.of_nat nkeys)%N && (fl <? 256)%N && is_sighash fl then Some (N.to_nat ki, fl) else None
+              | _, _ => None
+              end
+  | _ => None
+  end.
+Definition parse_pos (s : string) : option nat :=
+  match N_of_dec s with Some n => if (n <? 100000)%N then Some (N.to_nat n) else None | None => None end.
+
+Definition sep_bit : bit := BOp 171.
+Definition count_eq (k : nat) (l : list nat) : nat := length (filter (Nat.eqb k) l).
+Fixpoint insert_seps (k : nat) (bits : list bit) (seps : list nat) : list bit :=
+  match bits with
+  | [] => repeat sep_bit (length (filter (fun p => Nat.leb k p) seps))
+  | b :: r => repeat sep_bit (count_eq k seps) ++ b :: insert_seps (S k) r seps
+  end.
+Definition is_check_bit (b : bit) : bool :=
+  match b with BOp c => (c =? 172)%N || (c =? 173)%N || (c =? 174)%N || (c =? 175)%N | _ => false end.
+Definition is_sep_bit (b : bit) : bool := match b with BOp c => (c =? 171)%N | _ => false end.
+(* bits after the last separator that precedes the first signature check *)
+Fixpoint cut_code (start ts : list bit) : list bit :=
+  match ts with
+  | [] => start
+  | t :: r => if is_check_bit t then start else if is_sep_bit t then cut_code r r else cut_code start r
+  end.
+Definition has_check (ts : list bit) : bool := existsb is_check_bit ts.
+
+Definition push_bytes_of (d : bytes) : outcome bytes := encode_pushdata d.
+Fixpoint concat_pushes (ds : list bytes) : outcome bytes :=
+  match ds with
+  | [] => Ok []
+  | d :: r => do p <- push_bytes_of d; do q <- concat_pushes r; Ok (p ++ q)
+  end.
+(* Script::from_asm_string of hex tokens: every token becomes a push of its bytes (sizes here are 20..73) *)
+Definition asm_push (d : bytes) : bit := BPush d.
+
+Definition build_spend (kind : string) (txb : bytes) (idx : N) (value : N) (sks : list privkey) (signers : list (nat * N))
+           (seps : list nat) (rawlock rawsub : bytes) (variant : bool) : outcome string :=
+  let pks := map (pubkey_bytes FP) sks in
+  let pk0 := match pks with p :: _ => p | [] => [] end in
+  do plain <-
+    (if String.eqb kind "p2pkh" then Ok [BOp 118; BOp 169; asm_push (hash_160 pk0); BOp 136; BOp 172]
+     else if String.eqb kind "p2pk" then do p <- push_bytes_of pk0; from_bytes (p ++ [xac])
+     else if String.eqb kind "ms" then
+       do ps <- concat_pushes pks;
+       from_bytes (n2b (80 + N.of_nat (length signers)) :: ps ++ [n2b (80 + N.of_nat (length pks)); xae])
+     else from_bytes rawlock);
+  let raw := String.eqb kind "raw" in
+  do bits <-
+    (if variant && negb raw then
+       match rev plain with
+       | BOp 172 :: r => Ok (rev r ++ [BOp 173; BOp 81])
+       | BOp 174 :: r => Ok (rev r ++ [BOp 175; BOp 81])
+       | _ => Err
+       end
+     else Ok plain);
+  let locking := insert_seps 0 bits seps in
+  do subscript <- (if raw then from_bytes rawsub
+                   else if has_check locking then Ok (cut_code locking locking) else Err);
+  do t0 <- tx_from_bytes txb;
+  let i := clamp_idx t0 idx in
+  match nth_error (inputs t0) i with
+  | None => Err
+  | Some inp =>
+      let inp1 := set_unlocking (set_locking_script (set_satoshis inp value) locking) [] in
+      let t1 := set_inputs t0 (set_nth i inp1 (inputs t0)) in
+      let sign_one (s : nat * N) : outcome bytes :=
+        match nth_error sks (fst s) with
+        | Some sk => tx_sign_element FP t1 sk (snd s) i subscript value
+        | None => Err
+        end in
+      do sigs <- (fix go (l : list (nat * N)) : outcome (list bytes) :=
+                    match l with [] => Ok [] | s :: r => do a <- sign_one s; do ar <- go r; Ok (a :: ar) end) signers;
+      do unlocking <-
+        (if String.eqb kind "p2pkh" then
+           match signers, sigs with
+           | s0 :: _, sg0 :: _ =>
+               let pks0 := match nth_error pks (fst s0) with Some p => p | None => [] end in
+               if bytes_eqb (hash_160 pks0) (hash_160 pk0) then Ok [asm_push sg0; asm_push pks0] else Err
+           | _, _ => Err
+           end
+         else
+           do ps <- (fix go (l : list (nat * N)) (sg : list bytes) : outcome bytes :=
+                       match l, sg with
+                       | s :: r, g :: gr =>
+                           do p <- push_bytes_of g;
+                           do k <- (if raw && variant then
+                                      push_bytes_of (match nth_error pks (fst s) with Some x => x | None => [] end)
+                                    else Ok []);
+                           do q <- go r gr; Ok (p ++ k ++ q)
+                       | _, _ => Ok []
+                       end) signers sigs;
+           from_bytes ((if String.eqb kind "ms" then [x00] else []) ++ ps));
+      let inp2 := set_unlocking inp1 unlocking in
+      let t2 := set_inputs t1 (set_nth i inp2 (inputs t1)) in
+      let ext := join "," (mapi_from 0 (fun k _ => if Nat.eqb k i then dec_of_N value +++ "." +++ hex_of_bytes (to_bytes locking) else "n.n")
+                                     (inputs t2)) in
+      Ok (hex_of_bytes (tx_bytes t2) +++ ";" +++ ext +++ ";" +++ hex_of_bytes (to_bytes locking) +++ ";"
+          +++ hex_of_bytes (to_bytes subscript))
+  end.
+
+Definition run_build (kind txd idx value keys signers seps variant : string) : string :=
+  match expand txd, N_of_dec idx, N_of_dec value, parse_all parse_key (split "," keys) with
+  | Some txb, Some i, Some v, Some sks =>
+      match parse_all (parse_signer (length sks)) (split "," signers),
+            (if String.eqb variant "0" then Some false else if String.eqb variant "1" then Some true else None) with
+      | Some sg, Some vf =>
+          let raw := String.eqb kind "raw" in
+          let sepso := if raw || String.eqb seps "_" then Some [] else parse_all parse_pos (split "," seps) in
+          let rawp := if raw then match split "." seps with
+                                  | [a; b] => match expand a, expand b with Some x, Some y => Some (x, y) | _, _ => None end
+                                  | _ => None end
+                      else Some ([], []) in
+          match sepso, rawp with
+          | Some sp, Some (rl, rs) =>
+              if (v <=? 18446744073709551615)%N then
+                out3 (match build_spend kind txb i v sks sg sp rl rs vf with
+                      | Ok s => "OK:" +++ s | Err => "ERR" | Panic => "PANIC" end) "-" "-"
+              else "BADARG"
+          | _, _ => "BADARG"
+          end
+      | _, _ => "BADARG"
+      end
+  | _, _, _, _ => "BADARG"
+  end.
+
 Definition run (op : string) (args : list string) : string :=
   match op, args with
   | "interp.spend", [txd; idx; ext] =>
@@ -125,5 +270,7 @@ Definition run (op : string) (args : list string) : string :=
       | Some txb, Some i, Some es => run_spend txb i es
       | _, _, _ => "BADARG"
       end
+  | "spend.build", [kind; txd; idx; value; keys; signers; seps; variant] =>
+      run_build kind txd idx value keys signers seps variant
   | _, _ => "BADOP"
   end.
